@@ -270,6 +270,13 @@ class AsyncFIXConnection:
         self._socket_writer.write(encoded_msg)
         await self._socket_writer.drain()
 
+        if msg.get(FTag.PossDupFlag, None) == "Y" or (
+            msg.msg_type == FMsg.SEQUENCERESET
+            and msg.get(FTag.GapFillFlag, None) == "Y"
+        ):
+            # replies to a ResendRequest: the journal keeps the original messages
+            return
+
         self._journaler.persist_msg(
             encoded_msg, self._session, MessageDirection.OUTBOUND
         )
@@ -596,6 +603,9 @@ class AsyncFIXConnection:
 
         begin_seq_no = int(resend_msg[FTag.BeginSeqNo])
         end_seq_no = int(resend_msg[FTag.EndSeqNo])
+        if begin_seq_no < 1:
+            # invalid request: answer from the first message
+            begin_seq_no = 1
         if end_seq_no == 0:
             end_seq_no = sys.maxsize
         self.log.info("Received resent request from %s to %s", begin_seq_no, end_seq_no)
@@ -606,7 +616,6 @@ class AsyncFIXConnection:
         # Remember next_num_out
         current_next_num_out = self._session.next_num_out
 
-        self._journaler.set_seq_num(self._session, next_num_out=begin_seq_no)
         gap_fill_begin = int(begin_seq_no)
         gap_fill_end = int(begin_seq_no)
 
@@ -665,8 +674,6 @@ class AsyncFIXConnection:
             gap_fill_msg[FTag.MsgSeqNum] = gap_fill_begin
             gap_fill_msg[FTag.NewSeqNo] = current_next_num_out
             await self.send_msg(gap_fill_msg)
-
-        self._journaler.set_seq_num(self._session, next_num_out=current_next_num_out)
 
         if self._connection_state != ConnectionState.RESENDREQ_AWAITING:
             await self._state_set(ConnectionState.ACTIVE)
